@@ -315,6 +315,32 @@ func genC04(r *simrt.Rand, tier string, idx uint64) *Plan {
 			f.Kind, f.AtOp, f.Side, f.Offset = "cut", 0, r.Intn(2), int64(r.Intn(1500))
 		}
 		p.Faults = append(p.Faults, f)
+	} else if idx%5 == 4 && p.Codec != "bytes" && p.Conns[0].Server == 0 {
+		// a peer that sends pings carrying other upgrade bits, method names and bodies
+		if len(p.Streams) == 0 {
+			p.Streams = []StreamPlan{{Conn: 0, Echo: true}}
+		}
+		p.Streams[0].Conn = 0
+		var ops []PuppetOp
+		if r.Bool() {
+			ops = append(ops, PuppetOp{Kind: "sopen"})
+		}
+		for i := 0; i < 3+r.Intn(8); i++ {
+			op := PuppetOp{Kind: "hb", Val: r.Intn(256), N: r.Intn(3), Pos: 0}
+			if len(ops) > 0 && ops[0].Kind == "sopen" && r.Chance(1, 3) {
+				op.Pos = 1
+			}
+			if r.Bool() {
+				op.Size = 1 + r.Intn(40)
+			}
+			ops = append(ops, op)
+			if r.Chance(1, 3) {
+				ops = append(ops, PuppetOp{Kind: "valid", Size: r.Intn(20)})
+			}
+		}
+		ops = append(ops, PuppetOp{Kind: "probe"}, PuppetOp{Kind: "sleep", N: 5000})
+		p.Puppets = [][]PuppetOp{ops}
+		p.Params = map[string]int{"hb": 1}
 	}
 	return p
 }
@@ -327,10 +353,26 @@ func checkC04(w *World, run *simrt.Run) {
 		}
 		execs[e.ID] = append(execs[e.ID], e)
 	}
+	puppetValid := map[uint64]bool{}
+	for _, pc := range w.Puppets {
+		for _, id := range pc.sent {
+			puppetValid[id] = true
+		}
+	}
 	for id, es := range execs {
 		c := w.callByID(id)
+		if c == nil && puppetValid[id] {
+			if len(es) > 1 {
+				w.Violate("C04.duplicate-execution", "duplicate-execution:puppet", fmt.Sprintf("request id %d of the raw peer: handler ran %d times", id, len(es)))
+			}
+			continue
+		}
 		if c == nil {
-			w.Violate("C04.phantom-execution", "phantom-execution", fmt.Sprintf("handler %s ran for id %d which no client sent", es[0].Shape, id))
+			sig := "phantom-execution"
+			if w.P.Params["hb"] == 1 {
+				sig = "ping-invoked-handler"
+			}
+			w.Violate("C04.phantom-execution", sig, fmt.Sprintf("handler %s ran for id %d which no client sent as a request", es[0].Shape, id))
 			continue
 		}
 		if len(es) > 1 {
@@ -342,6 +384,49 @@ func checkC04(w *World, run *simrt.Run) {
 			}
 			if c.Bad != "" {
 				w.Violate("C04.phantom-execution", "execution-of-invalid-request:"+c.Bad, descCall(c)+": a handler ran for a request that names no handler / has undecodable arguments")
+			}
+		}
+	}
+	if w.P.Params["hb"] == 1 {
+		// pings with odd flags: answered exactly once, no stream handler started, no stream message invented
+		starts := 0
+		for _, e := range w.Execs {
+			if e.Stream {
+				starts++
+			}
+		}
+		opens := 0
+		for _, s := range w.Streams {
+			if s.Opened || s.OpenErr != "" {
+				opens++
+			}
+		}
+		for _, pc := range w.Puppets {
+			opens += pc.sopens
+			frames := DecodeStream(pc.rx, w.P.Header, false)
+			for _, seq := range pc.hbSeqs {
+				n := 0
+				for _, f := range frames {
+					if f.Seq == seq {
+						n++
+					}
+				}
+				if n != 1 && !pc.closedByPeer {
+					w.Violate("C04.ping", "ping-with-odd-flags-not-answered-once", fmt.Sprintf("heartbeat frame with sequence number %d got %d responses", seq, n))
+				}
+			}
+			w.Probes["odd-pings-sent"] += len(pc.hbSeqs)
+		}
+		if starts > opens {
+			w.Violate("C04.ping", "ping-started-stream-handler", fmt.Sprintf("%d stream handlers started, only %d streams were opened", starts, opens))
+		}
+		for _, s := range w.Streams {
+			want := len(s.CSent)
+			for _, pc := range w.Puppets {
+				want += pc.smsgs
+			}
+			if len(s.SGot) > want {
+				w.Violate("C04.ping", "ping-delivered-as-stream-message", fmt.Sprintf("stream %d: handler read %d messages, only %d were sent", s.Idx, len(s.SGot), want))
 			}
 		}
 	}
